@@ -51,6 +51,8 @@ type World struct {
 	// goroutines the scheduler does not own emit within one step: S-dir).
 	TagEvents bool
 
+	liveHead *Actor
+
 	// points[i] says whether preemption point i yields in this run; set by the
 	// scheduler before the system under test starts.
 	points []bool
@@ -98,6 +100,10 @@ type Parked struct {
 
 	lock  interface{} // for Kind == lock: the mutex to probe
 	rlock bool
+	// Pending: a writer that has, as far as the program is concerned, already
+	// called Lock on an RWMutex that readers still hold. Go's RWMutex makes new
+	// readers wait behind such a writer; so does the scheduler.
+	Pending bool
 	// Ready, if set, is evaluated by the scheduler goroutine only.
 	Ready func() bool
 	ch    chan struct{}
@@ -110,6 +116,9 @@ type Actor struct {
 	Label  string
 	parks  int64
 	spawns *spawnCount
+	live   bool
+	nextL  *Actor
+	prevL  *Actor
 }
 
 type spawnCount struct {
@@ -333,10 +342,68 @@ func (w *World) Enabled(p *Parked) bool {
 	if p.lock == nil {
 		return true
 	}
+	if p.rlock {
+		// writer preference: a reader queues behind a pending writer
+		id := lockID(p.lock)
+		for i := 0; i < w.nParked; i++ {
+			if q := w.parked[i]; q.Pending && lockID(q.lock) == id {
+				return false
+			}
+		}
+	}
 	raceDisable()
 	ok := probe(p.lock, p.rlock)
 	raceEnable()
 	return ok
+}
+
+//go:norace
+func lockID(l interface{}) interface{} {
+	switch m := l.(type) {
+	case **sync.Mutex:
+		return *m
+	case **sync.RWMutex:
+		return *m
+	}
+	return l
+}
+
+// CanPend reports whether p is a writer waiting for an RWMutex that only
+// readers hold (so that its Lock call would queue and hold back new readers).
+//
+//go:norace
+func (w *World) CanPend(p *Parked) bool {
+	if p.lock == nil || p.rlock || p.Pending {
+		return false
+	}
+	if _, ok := lockID(p.lock).(*sync.RWMutex); !ok {
+		return false
+	}
+	raceDisable()
+	ok := !probe(p.lock, false) && probe(p.lock, true)
+	raceEnable()
+	return ok
+}
+
+// SetPending marks the writer as having called Lock (scheduler only).
+//
+//go:norace
+func (w *World) SetPending(p *Parked) { p.Pending = true }
+
+// Live returns the labels of the goroutines of the system under test that
+// have started and not yet returned (scheduler only).
+//
+//go:norace
+func (w *World) Live(dst []string) []string {
+	dst = dst[:0]
+	raceDisable()
+	w.mu.Lock()
+	for a := w.liveHead; a != nil; a = a.nextL {
+		dst = append(dst, a.Label)
+	}
+	w.mu.Unlock()
+	raceEnable()
+	return dst
 }
 
 type tryLocker interface {
@@ -438,9 +505,41 @@ func GoStart(a *Actor) {
 	raceDisable()
 	w.mu.Lock()
 	w.bind(g, a)
+	a.live = true
+	a.nextL, a.prevL = w.liveHead, nil
+	if w.liveHead != nil {
+		w.liveHead.prevL = a
+	}
+	w.liveHead = a
 	w.mu.Unlock()
 	raceEnable()
 	w.park(a, "go", "", nil, false, nil)
+}
+
+// GoEnd is deferred at the start of every spawned goroutine: the goroutine
+// has returned.
+//
+//go:norace
+func GoEnd(a *Actor) {
+	w := cur
+	if w == nil || a == nil {
+		return
+	}
+	raceDisable()
+	w.mu.Lock()
+	if a.live {
+		a.live = false
+		if a.prevL != nil {
+			a.prevL.nextL = a.nextL
+		} else if w.liveHead == a {
+			w.liveHead = a.nextL
+		}
+		if a.nextL != nil {
+			a.nextL.prevL = a.prevL
+		}
+	}
+	w.mu.Unlock()
+	raceEnable()
 }
 
 // BeforeLock parks until the scheduler has seen the lock free and chosen this
